@@ -50,16 +50,14 @@ func (b *ProcessLogBuffer) GetLogRange(offsetFromEnd, limit int) []string {
 	if limit < 1 {
 		limit = 0
 	}
-	if limit > len(b.buffer) {
-		limit = len(b.buffer)
+	if limit > offsetFromEnd {
+		limit = offsetFromEnd
 	}
-	if offsetFromEnd+limit > len(b.buffer) {
-		limit = len(b.buffer) - offsetFromEnd
-	}
+	start := len(b.buffer) - offsetFromEnd
 	if limit == 0 {
-		return b.buffer[len(b.buffer)-offsetFromEnd:]
+		return b.buffer[start:]
 	}
-	return b.buffer[len(b.buffer)-offsetFromEnd : offsetFromEnd+limit]
+	return b.buffer[start : start+limit]
 }
 
 func (b *ProcessLogBuffer) GetLogLength() int {
